@@ -420,7 +420,7 @@ def run_deductive(rep, modules, only=None):
         if lem.modname in modnames and (only is None or name in only):
             descs.append(("lemma", name, None))
     for fq, c in reg.contracts.items():
-        if c.sidecar in modnames and not c.trusted and (only is None or c.short in only):
+        if c.sidecar in modnames and not c.trusted and not getattr(c, "bounded_only", None) and (only is None or c.short in only):
             if getattr(c, "arg_cases", None):
                 for i in range(len(c.arg_cases)):
                     descs.append(("function", fq, {"__case__": i}))
